@@ -747,6 +747,7 @@ func main() {
 		for _, cf := range cfs {
 			for _, sc := range scs {
 				if len(v.Trace) == 2 && cf.String() == v.Trace[0] && sc.name == v.Trace[1] {
+					vk.ReplayRan()
 					runOne(r, st, cf, sc)
 				}
 			}
